@@ -293,6 +293,10 @@ func sameList(a, b []string) bool {
 
 func attReplay(prop string) mc.ReplayFunc {
 	return func(raw json.RawMessage) ([]string, string) {
+		var h c01Held
+		if json.Unmarshal(raw, &h) == nil && h.Held {
+			return c01HeldExec(h)
+		}
 		var c attCase
 		if err := json.Unmarshal(raw, &c); err != nil {
 			return nil, err.Error()
@@ -421,8 +425,56 @@ func attExplore(r *mc.Run, prop string) {
 	}
 }
 
+// c01Held: an accepted result is kept by its caller while another genuine message is validated
+// (on the same instance or on another one); what it says about the first message's assertions
+// must not change.
+type c01Held struct {
+	Held   bool `json:"held_result"`
+	First  int  `json:"first"`  // index into the genuine messages
+	Second int  `json:"second"` // index into the genuine messages
+	SameSP bool `json:"same_instance"`
+}
+
+func c01HeldExec(c c01Held) (keys []string, detail string) {
+	w := theAttWorld()
+	conf := world.SPConf{Store: []string{"K1", "K2", "K3"}}
+	sp1 := conf.Build()
+	sp2 := sp1
+	if !c.SameSP {
+		sp2 = conf.Build()
+	}
+	enc := func(i int) string { return idp.Encode(w.msgs[i].XML, false) }
+	r1, c1 := validateResponse(sp1, enc(c.First))
+	detail = fmt.Sprintf("case=%+v first=%s second=%s | first accepted=%v", c, w.msgs[c.First].Name, w.msgs[c.Second].Name, c1.Accepted())
+	if !c1.Accepted() {
+		return nil, detail
+	}
+	was := snapshotOf(r1)
+	_, c2 := validateResponse(sp2, enc(c.Second))
+	detail += fmt.Sprintf(" second accepted=%v", c2.Accepted())
+	if now := snapshotOf(r1); now != was {
+		return []string{"C01/result-held-by-the-caller-changed-by-a-later-validation"}, detail + fmt.Sprintf(" | the first result was %.300s and is now %.300s", was, now)
+	}
+	return nil, detail
+}
+
 func c01Run(r *mc.Run) {
-	r.Rule = "explicit-state BFS over attacker edits (strip/move/re-sign signatures, edit signed fields, reference and digest tampering, comments, namespace tricks, message-type confusion, encryption, splicing genuine signed assertions, wrapping, ID-colliding duplicates, hiding content inside ds:Signature) from 9 genuine messages, plus lexical presentations (XML declaration, DOCTYPE entity, round-trip-instability vectors, CDATA, character references) of shallow states, plus every ordered tree of <=N nodes over the wrapping alphabet; each state judged under 4 configurations by both SSO entry points; non-trivial = the state was accepted under that configuration; distinct = distinct (input, configuration)"
+	// sequential: results held across a later validation (all ordered pairs of genuine messages)
+	nm := len(theAttWorld().msgs)
+	for i := 0; i < nm; i++ {
+		for j := 0; j < nm; j++ {
+			for _, same := range []bool{true, false} {
+				h := c01Held{Held: true, First: i, Second: j, SameSP: same}
+				keys, detail := c01HeldExec(h)
+				r.Eval(2)
+				r.Bucket("held-result")
+				for _, k := range keys {
+					r.Violation(k, detail, h)
+				}
+			}
+		}
+	}
+	r.Rule = "explicit-state BFS over attacker edits (strip/move/re-sign signatures, edit signed fields, reference and digest tampering, comments, namespace tricks, message-type confusion, encryption, splicing genuine signed assertions, wrapping, ID-colliding duplicates, hiding content inside ds:Signature) from 9 genuine messages, plus lexical presentations (XML declaration, DOCTYPE entity, round-trip-instability vectors, CDATA, character references) of shallow states, plus every ordered tree of <=N nodes over the wrapping alphabet; each state judged under 4 configurations (shallow ones also under an empty and a missing certificate store) by both SSO entry points; every ordered pair of genuine messages validated one after the other with the first result held by its caller; non-trivial = the state was accepted under that configuration; distinct = distinct (input, configuration)"
 	r.Assume("RSA/ECDSA signatures unforgeable", "etree parser used by the harness to apply edits and to find the direct children of the root", "goxmldsig canonicalisers used by the harness IdP")
 	attExplore(r, r.Prop)
 	treeExplore(r, r.Prop)
